@@ -1,7 +1,7 @@
 """C12: signals reach exactly the connected slots, safely under re-entrancy."""
 UNITS = [dict(
     name='callback', harness='harness/c12_callback.cpp', sources=['repo:src/Callback.cpp', 'repo:src/Memory.cpp'],
-    defines={'quick': {'VF_K': 2, 'VF_DEPTH': 2, 'VF_BUDGET': 2, 'VF_NSIG': 1}, 'thorough': {'VF_K': 3, 'VF_DEPTH': 2, 'VF_BUDGET': 2, 'VF_NSIG': 1}},
+    defines={'quick': {'VF_K': 2, 'VF_DEPTH': 2, 'VF_BUDGET': 2, 'VF_NSIG': 1}, 'thorough': {'VF_K': 2, 'VF_DEPTH': 2, 'VF_BUDGET': 3, 'VF_NSIG': 1}},
     entries=['history'],
     opts={'all': {'unwind': 64, 'max_instr': 600000}},
     split={'quick': 14, 'thorough': 16},
@@ -10,7 +10,7 @@ UNITS = [dict(
 )]
 BOUNDS = {
     'quick': '2 emitters x 1 signal (thorough: 2), 3 listeners x 2 slots, two initial connections; outer histories of <= 2 actions (connect / disconnect / emit / destroy listener / destroy emitter) where every invoked slot performs one further chosen action, nested to depth 2, at most 2 non-trivial slot actions per run; after every outer action both sides\' private bookkeeping is compared with the model; a final emission of every live signal',
-    'thorough': 'outer histories <= 3, nesting depth 2, 2 slot actions (depth 3 with two signals per emitter was measured: no verdict within 50 min, 6.5 million histories, no violation - not registered)',
+    'thorough': 'outer histories <= 2, nesting depth 2, 3 slot actions (3 outer operations, and depth 3 with two signals per emitter, were measured: no verdict within 40-50 min, millions of histories, no violation - not registered)',
 }
 OUTSIDE = 'more emitters/listeners/slots than listed, signals with arguments (same code path with forwarded arguments), more nested actions than the budget'
 ASSUMPTIONS = ['clang++-14 -O1 IR of src/Callback.cpp + include/nstd/Callback.hpp with the real Map and List; member-function pointers are Itanium-ABI pairs whose bytes are compared with the engine\'s memcmp',
